@@ -216,8 +216,15 @@ def _replay_region(b, order=1):
             irregular = float(np.abs(got_d - got_n).max()) if got_d.shape == got_n.shape else float("inf")
         except Exception:
             irregular = float("inf")
-        bad = err > 1e-4 * b ** 3 or moved > 1e-6 or err_again > 1e-6 or irregular > 1e-6
-        return bad, {"max_abs_err": err, "b": b, "scale": scale, "binned_scale": binned.scale, "original_molecules_moved_by": moved, "original_subvolume_changed_by": err_again,
+        # half turns about each axis keep the samples on the voxel grid for these centres: the identity stays exact for rotated molecules
+        err_rot = 0.0
+        for q in ([0, 0, 1, 0], [1, 0, 0, 0], [0, 1, 0, 0]):
+            ldr = SubtomogramLoader(img, Molecules([pos_orig], Rotation.from_quat([q])), order=order, scale=scale, output_shape=tuple(b * s for s in S))
+            bigr = ldr.load(0)
+            smallr = ldr.binning(b, compute=True).replace(output_shape=S).load(0)
+            err_rot = max(err_rot, float(np.abs(smallr - bigr.reshape(S[0], b, S[1], b, S[2], b).sum(axis=(1, 3, 5))).max()))
+        bad = err > 1e-4 * b ** 3 or moved > 1e-6 or err_again > 1e-6 or irregular > 1e-6 or err_rot > 1e-4 * b ** 3
+        return bad, {"max_abs_err": err, "max_abs_err_half_turns": err_rot, "b": b, "scale": scale, "binned_scale": binned.scale, "original_molecules_moved_by": moved, "original_subvolume_changed_by": err_again,
                      "dask_irregular_chunks_vs_numpy": irregular}
 
     return run
@@ -329,7 +336,10 @@ def _replay_region_batch(b, compute=False, kinds=None):
                 import dask.array as da
 
                 img = da.from_array(img, chunks=(16, 16, 16))
-            bl.add_tomogram(img, Molecules([pos]), image_id=k)
+            # a half turn keeps every sample point on the voxel grid for these centres, so the block-sum identity stays exact
+            from scipy.spatial.transform import Rotation
+
+            bl.add_tomogram(img, Molecules([pos], Rotation.from_quat([[0, 0, 1, 0]] if k == 0 else [[1, 0, 0, 0]])), image_id=k)
         big = bl.construct_dask().compute()
         try:
             binned = bl.binning(b, compute=compute).replace(output_shape=S)
@@ -363,6 +373,9 @@ def sec_region_batch(rec, b=3, compute=False, kinds=None, patches=None):
         for a in range(3):
             c = P[t][a].e / scale.e
             hyps += [c >= 1000, c <= _real(n[a].e) - 1000]
+    # orientations: exact rational unit quaternions, none the identity (a half turn about z; a rotation about x with cos = 7/25);
+    # arbitrary orientations are covered for the single loader by sec_region
+    Qs = {"m0": [0, 0, 1, 0], "m1": [Fraction(3, 5), 0, 0, Fraction(4, 5)]}
     rp = _replay_region_batch(b, compute, kinds)
     tag = f"region-batch[b={b},compute={compute}{',' + '+'.join(kinds) if kinds else ''}]"
     with L.installed():
@@ -371,7 +384,7 @@ def sec_region_batch(rec, b=3, compute=False, kinds=None, patches=None):
             for k, t in enumerate(tags):
                 im = stubs.ImgStub(n, root=f"tomo{k}")
                 im.numpy_like = bool(kinds and kinds[k] == "numpy")
-                bl.add_tomogram(im, c03._molecules(MC, [t]), image_id=k)
+                bl.add_tomogram(im, MC.Molecules(to_symarray([P[t]]), rotation.SymRotation([Qs[t]]), features={"row": [t]}), image_id=k)
             binned = bl.binning(b, compute=compute).replace(output_shape=S)
             ro = [t.compute() for t in bl.construct_loading_tasks(backend=xp)]
             rb = [t.compute() for t in binned.construct_loading_tasks(backend=xp)]
